@@ -417,3 +417,210 @@ Proof.
     + intros ci IN. apply P3. apply Q1. exact IN.
     + intros ci [E|[E|IN]]; [discriminate E | discriminate E | apply P2; exact IN].
 Qed.
+
+(* ------------------------------------------------------------------ *)
+(** * The value of an actor is dropped; a cell is freed *)
+
+Lemma IK_valdrop m b a k0 s :
+  monr stepK iK (tr s) = Some m -> monr stepF None (tr s) = Some b -> RK m b (MValDrop a :: k0) s ->
+  RKnext ([] ++ k0) (emit s (EValDrop a)).
+Proof.
+  intros MK MF R. pose proof R as [Kb Kf Ky Kp Kz Kcx Kql Kqr]. set (s' := emit s (EValDrop a)).
+  assert (ST : stepK m (EValDrop a) = Some m).
+  { cbn [stepK]. rewrite Kb. pose proof (Kz (MValDrop a) a (or_introl eq_refl) eq_refl) as NB. unfold fbody in NB. unfold openbody.
+    destruct (endb (MValDrop a :: k0)) as [[u f]|]; [|reflexivity]. destruct (fin_actor f) as [a1|]; [|reflexivity].
+    destruct (N.eqb a a1) eqn:Q; [|reflexivity]. apply N.eqb_eq in Q. subst a1. contradiction NB; reflexivity. }
+  right. exists m, b. split; [change (tr s') with (EValDrop a :: tr s); cbn [monr]; rewrite MK; exact ST|].
+  split; [change (tr s') with (EValDrop a :: tr s); cbn [monr]; rewrite MF; reflexivity|].
+  destruct (RK_frame m m b _ k0 s s' [EValDrop a] eq_refl (nmono_same _ _ eq_refl) (fun a c H => H) eq_refl R) as (P1 & P2 & P3 & P4 & P5 & P6).
+  constructor.
+  - exact Kb.
+  - exact Kf.
+  - intros a0 c0 EX. assert (NT : MValDrop a <> MTerminate a0 c0) by discriminate. exact (P4 _ _ EX NT).
+  - exact P1.
+  - intros y a0 IN T. apply (P5 y a0 IN T).
+  - intros a0 p0 d0 IN. apply (P6 a0 p0 d0). exact IN.
+  - exact P3.
+  - exact P2.
+Qed.
+
+Definition free_step (a : N) (s : st) (pre : list mop) (s' : st) : Prop :=
+  exists evs, tr s' = EModel M_FREE_ACTOR a :: evs ++ tr s /\ forallb pbK evs = true /\ nmono s s' /\ dies s' = dies s /\
+    existsb is_endb pre = false /\ (forall y, In y pre -> y = MValDrop a \/ dly y = false).
+
+Lemma drop_ref_K a s pre s' : drop_ref a s = (pre, s') -> neutralK s pre s' \/ free_step a s pre s'.
+Proof.
+  unfold drop_ref. destruct (aget (actors s) a) as [x|] eqn:A.
+  - destruct (a_freed x).
+    { intros Q; inj_pairK Q. left. unfold neutralK. split; [eiK | split; [apply nmono_same; reflexivity | split; [reflexivity | split; [reflexivity | left; reflexivity]]]]. }
+    destruct (minrc_drop (a_rc x)) as [[v z]|].
+    + destruct z.
+      * destruct (state_drops a (a_state x) _) as [dl s2] eqn:SD. destruct (state_drops_K _ _ _ _ _ SD) as (-> & DE & DR & DV).
+        intros Q; inj_pairK Q. right. exists []. split; [reflexivity | split; [reflexivity|]]. split; [|split; [reflexivity | split]].
+        -- intros b0 y HY. rewrite aget_upd_emit. destruct (N.eqb a b0) eqn:Q.
+           ++ eexists. split; [reflexivity | right; reflexivity].
+           ++ exists y. auto.
+        -- rewrite endb_app, DE. destruct (a_notify x); reflexivity.
+        -- intros y IN. apply in_app_or in IN as [IN|IN]; [|apply DV; exact IN]. right. destruct (a_notify x); [destruct IN as [<-|[]]; reflexivity | destruct IN].
+      * intros Q; inj_pairK Q. left. unfold neutralK. split; [eiK | split; [|split; [reflexivity | split; [reflexivity | left; reflexivity]]]].
+        intros b0 y HY. rewrite aget_upd. destruct (N.eqb a b0) eqn:Q.
+        -- apply N.eqb_eq in Q. subst b0. rewrite A in HY. inversion HY; subst y. eexists. split; [reflexivity | left; reflexivity].
+        -- exists y. auto.
+    + intros Q; inj_pairK Q. left. unfold neutralK. split; [eiK | split; [apply nmono_same; reflexivity | split; [reflexivity | split; [reflexivity | left; reflexivity]]]].
+  - intros Q; inj_pairK Q. left. unfold neutralK. split; [eiK | split; [apply nmono_same; reflexivity | split; [reflexivity | split; [reflexivity | left; reflexivity]]]].
+Qed.
+
+Lemma IK_dropref m b a k0 s pre s' :
+  FK (MDropRef a :: k0) (ctxs s) -> FK (pre ++ k0) (ctxs s') -> QTags s -> KS s ->
+  handle (MDropRef a) s = (pre, s') ->
+  monr stepK iK (tr s) = Some m -> monr stepF None (tr s) = Some b -> RK m b (MDropRef a :: k0) s ->
+  RKnext (pre ++ k0) s'.
+Proof.
+  intros F F' QT KS_ H MK MF R.
+  pose proof (handle_Q _ _ _ _ QT KS_ H I) as QS.
+  cbn [handle] in H. destruct (drop_ref_K _ _ _ _ H) as [NE|FS].
+  - right. exists m, b. apply (RK_neutral m b (MDropRef a) k0 s pre s'); auto. intros; discriminate.
+  - destruct FS as (evs & TR & PB & NM & DS & DE & DV).
+    pose proof R as [Kb Kf Ky Kp Kz Kcx Kql Kqr]. destruct QS as [Q1 Q2].
+    destruct (match b with Some x => N.eqb x a | None => false end) eqn:BA.
+    + left. unfold BadF. rewrite TR. cbn [monr]. rewrite (monF_block _ _ _ PB MF). cbn [stepF]. rewrite N.eqb_refl, BA. reflexivity.
+    + right. exists m, b. split; [rewrite TR; cbn [monr]; rewrite (monK_block _ _ _ PB MK); reflexivity|].
+      split; [rewrite TR; cbn [monr]; rewrite (monF_block _ _ _ PB MF); cbn [stepF]; rewrite N.eqb_refl, BA; reflexivity|].
+      assert (TR2 : tr s' = (EModel M_FREE_ACTOR a :: evs) ++ tr s) by (rewrite TR; reflexivity).
+      destruct (RK_frame m m b _ k0 s s' _ TR2 NM (fun a c H => H) eq_refl R) as (P1 & P2 & P3 & P4 & P5 & P6).
+      assert (EB' : endb (pre ++ k0) = endb (MDropRef a :: k0)) by (rewrite (endb_pre _ _ DE); reflexivity).
+      constructor.
+      * unfold openbody. rewrite EB'. unfold lastdie. rewrite DS. exact Kb.
+      * unfold fbody. rewrite EB'. exact Kf.
+      * intros a0 c0 EX. assert (NT : MDropRef a <> MTerminate a0 c0) by discriminate.
+        destruct (P4 _ _ EX NT) as (y & AY & G). exists y. split; [exact AY|]. destruct G as [G|G]; [left; exact G | right; apply in_or_app; right; exact G].
+      * intros y IN. apply in_app_or in IN as [IN|IN]; [|apply P1; exact IN]. apply (pok_valdrop m s' y a). apply DV. exact IN.
+      * intros y a0 IN T. unfold fbody. rewrite EB'. fold (fbody (MDropRef a :: k0)). apply in_app_or in IN as [IN|IN]; [|apply (P5 y a0 IN T)].
+        destruct (DV y IN) as [->|DY]; [|apply tgt_dly in T; congruence]. inversion T; subst a0. rewrite <- Kf. intros E. rewrite E in BA. rewrite N.eqb_refl in BA. discriminate.
+      * intros a0 p0 d0 IN. rewrite DS in IN. apply (P6 a0 p0 d0). exact IN.
+      * intros ci IN. apply P3. apply Q1. exact IN.
+      * intros ci IN. apply in_app_or in IN as [IN|IN]; [|apply P2; exact IN].
+        destruct (iskill ci) eqn:K; [apply P3; apply Q2; auto | apply kq_nokill; exact K].
+Qed.
+
+(* ------------------------------------------------------------------ *)
+(** * The acts that request a termination *)
+
+Lemma IK_badact m b mo l k0 s n :
+  is_endb mo = false -> (forall a c, mo <> MTerminate a c) ->
+  FK (mo :: k0) (ctxs s) -> FK (([] ++ [MActs l]) ++ k0) (ctxs (emit s (EBad n))) ->
+  monr stepK iK (tr s) = Some m -> monr stepF None (tr s) = Some b -> RK m b (mo :: k0) s ->
+  RKnext (([] ++ [MActs l]) ++ k0) (emit s (EBad n)).
+Proof.
+  intros EM NT F F' MK MF R. right. exists m, b. apply (RK_neutral m b mo k0 s ([] ++ [MActs l]) (emit s (EBad n))); auto.
+  - unfold neutralK. split; [eiK | split; [apply nmono_same; reflexivity | split; [reflexivity | split; [reflexivity | left; reflexivity]]]].
+  - apply Qeq; reflexivity.
+Qed.
+
+Lemma IK_reqact m b a l k0 s pre s' :
+  reqact a = true ->
+  FK (MActs (a :: l) :: k0) (ctxs s) -> FK (pre ++ k0) (ctxs s') -> DT (MActs (a :: l) :: k0) s ->
+  handle (MActs (a :: l)) s = (pre, s') ->
+  monr stepK iK (tr s) = Some m -> monr stepF None (tr s) = Some b -> RK m b (MActs (a :: l) :: k0) s ->
+  RKnext (pre ++ k0) s'.
+Proof.
+  intros RA F F' D H MK MF R. cbn [handle] in H.
+  assert (BAD : forall n, (pre, s') = (let '(p, s1) := bad s n in (p ++ [MActs l], s1)) -> RKnext (pre ++ k0) s').
+  { intros n Q. unfold bad in Q. inversion Q; subst pre s'. apply (IK_badact m b (MActs (a :: l))); auto. intros; discriminate. }
+  destruct a; try discriminate RA; unfold do_act in H.
+  - (* AStop *)
+    destruct (frames s) as [|[cx loc die] rest] eqn:FR; [apply (BAD 13%N); auto|].
+    destruct cx as [|a p|]; try (apply (BAD 13%N); auto; fail).
+    destruct (FK_cx _ _ _ _ _ _ _ F FR) as (-> & _). inversion H; subst pre s'.
+    apply (IK_stopfail m b (MActs (AStop :: l)) CStop l k0 s a p loc die); auto; try (intros; discriminate). exact I.
+  - (* AFail *)
+    destruct (frames s) as [|[cx loc die] rest] eqn:FR; [apply (BAD 14%N); auto|].
+    destruct cx as [|a p|]; try (apply (BAD 14%N); auto; fail).
+    destruct (FK_cx _ _ _ _ _ _ _ F FR) as (-> & _). inversion H; subst pre s'.
+    apply (IK_stopfail m b (MActs (AFail e :: l)) (CFail e) l k0 s a p loc die); auto; try (intros; discriminate). exact I.
+  - (* AKill *)
+    destruct (cur_ctx s) eqn:CX; try (apply (BAD 15%N); auto; fail).
+    destruct (alive s); [|apply (BAD 15%N); auto].
+    destruct (lookup s h) as [[a| | | | |]|]; try (apply (BAD 15%N); auto; fail).
+    inversion H; subst pre s'. apply (IK_kill m b (AKill h e :: l) l k0 s a e); auto.
+  - (* AKillAsync *)
+    destruct (lookup s h) as [[a| | | | |]|]; try (apply (BAD 16%N); auto; fail).
+    destruct (aget (actors s) a) as [x|] eqn:A; [|apply (BAD 16%N); auto].
+    inversion H; subst pre s'. apply (IK_killasync m b (AKillAsync h e :: l) l k0 s a e x); auto.
+Qed.
+
+(* ------------------------------------------------------------------ *)
+(** * The leak report; every step *)
+
+Lemma class_flag_pbK all p e : class_flag all p = Some e -> pbK e = true.
+Proof.
+  unfold class_flag. destruct (a_freed (snd p)); [discriminate|].
+  destruct (a_state (snd p)) as [[|c hl]| |]; try discriminate.
+  - intros E; inversion E. reflexivity.
+  - destruct (existsb _ _); [|discriminate]. intros E; inversion E. reflexivity.
+Qed.
+
+Lemma IK_leaks m b s pre s' :
+  handle MLeaks s = (pre, s') ->
+  monr stepK iK (tr s) = Some m -> monr stepF None (tr s) = Some b ->
+  pre = [] /\ monr stepK iK (tr s') = Some m /\ monr stepF None (tr s') = Some b.
+Proof.
+  intros H MK MF. cbn [handle] in H. inversion H; subst pre s'; clear H. split; [reflexivity|].
+  unfold class_flags. destruct (fold_emit_opt (class_flag (actors s)) (actors s) s) as (fl & TR1 & FM & _).
+  fold (class_flags s) in TR1.
+  assert (PF : forallb pbK fl = true).
+  { apply forallb_forall. intros e IN. rewrite Forall_forall in FM. destruct (FM e IN) as (p & CF). eapply class_flag_pbK; eauto. }
+  fold (class_flags s).
+  assert (TR : tr (set_tr (class_flags s) (rev (leaks (rev (tr (class_flags s)))) ++ tr (class_flags s))) =
+               (rev (leaks (rev (tr (class_flags s)))) ++ fl) ++ tr s).
+  { change (tr (set_tr ?x ?v)) with v. rewrite TR1 at 2. rewrite app_assoc. reflexivity. }
+  assert (PL : forallb pbK (rev (leaks (rev (tr (class_flags s)))) ++ fl) = true).
+  { rewrite forallb_app, PF, andb_true_r. apply forallb_forall. intros e IN. apply in_rev in IN. unfold leaks in IN.
+    apply in_map_iff in IN as (p & <- & _). reflexivity. }
+  split; rewrite TR; [apply monK_block | apply monF_block]; auto.
+Qed.
+
+Theorem step_IK k s k' s' :
+  FK k (ctxs s) -> DT k s -> Tail k s -> QTags s -> KS s ->
+  step k s = Some (k', s') -> IK k s -> IK k' s'.
+Proof.
+  intros F D TL QT KS_ ST II. pose proof (step_FK _ _ _ _ F ST) as F'.
+  destruct k as [|mo k0]; [discriminate|]. simpl in ST. destruct (handle mo s) as [pre s1] eqn:H. inversion ST; subst k' s1; clear ST.
+  destruct II as [B|(m & b & MK & MF & [E|R])]; [|discriminate E|].
+  { left. destruct (handle_ext _ _ _ _ H) as [evs TR]. rewrite TR. apply BadF_ext. exact B. }
+  assert (NEXT : RKnext (pre ++ k0) s' -> IK (pre ++ k0) s').
+  { intros [B|(m' & b' & MK' & MF' & R')]; [left; exact B | right; exists m', b'; auto]. }
+  destruct (specialK mo) eqn:SP.
+  - destruct mo; try discriminate SP.
+    + destruct l as [|a l]; [discriminate SP|]. apply NEXT. eapply IK_reqact; eauto.
+    + apply NEXT. eapply IK_endbody; eauto.
+    + apply NEXT. eapply IK_runitem; eauto.
+    + apply NEXT. eapply IK_dropref; eauto.
+    + apply NEXT. eapply IK_retinvoke; eauto.
+    + apply NEXT. cbn [handle] in H. inversion H; subst pre s'. eapply IK_valdrop; eauto.
+    + apply NEXT. eapply IK_terminate; eauto.
+    + destruct (Tail_leaks _ _ TL) as (-> & _). destruct (IK_leaks _ _ _ _ _ H MK MF) as (-> & MK' & MF').
+      right. exists m, b. split; [exact MK' | split; [exact MF' | left; reflexivity]].
+  - apply NEXT. right. exists m, b. apply (RK_neutral m b mo k0 s pre s'); auto.
+    + eapply handle_K; eauto.
+    + eapply handle_Q; eauto. destruct mo; auto. destruct l as [|a l]; auto. destruct a; auto. discriminate SP.
+    + destruct mo; try reflexivity. discriminate SP.
+    + intros a c E. subst mo. discriminate SP.
+Qed.
+
+Lemma IK_init d p : IK (map MTop p ++ [MEpilogue]) (init d).
+Proof.
+  right. exists iK, None. split; [reflexivity | split; [reflexivity|]]. right.
+  assert (NE : forall l, endb (map MTop l ++ [MEpilogue]) = None) by (induction l; simpl; auto).
+  assert (ND : forall l x, In x (map MTop l ++ [MEpilogue]) -> dly x = false /\ is_runm x = false).
+  { intros l x IN. apply in_app_or in IN as [IN|[<-|[]]]; [|split; reflexivity]. apply in_map_iff in IN as (o & <- & _). split; reflexivity. }
+  constructor.
+  - unfold openbody. rewrite NE. reflexivity.
+  - unfold fbody. rewrite NE. reflexivity.
+  - intros a c0 H. discriminate H.
+  - intros x IN. apply pok_nodly. apply (ND p x IN).
+  - intros x a IN T. apply tgt_dly in T. destruct (ND p x IN) as [DX _]. congruence.
+  - intros a q dd IN. destruct d; contradiction IN.
+  - intros ci IN. destruct d; contradiction IN.
+  - intros ci IN. destruct (ND p _ IN) as [_ RX]. discriminate RX.
+Qed.
